@@ -567,7 +567,93 @@ func (p *TermPool) SExt(a *Term, w int) *Term {
 }
 
 // FCmp builds a float comparison: fp.lt fp.leq fp.eq
+// intOfF: if t is an exact integer-valued float term (s2f of a <=32-bit vector, or an integral constant
+// in int32 range), return it as a 64-bit signed vector term.
+func (p *TermPool) intOfF(t *Term) (*Term, bool) {
+	if t.op == "s2f" && t.args[0].w <= 32 {
+		return p.SExt(t.args[0], 64), true
+	}
+	return nil, false
+}
+
+// fcmpIntConst compares an integer-valued term x (64-bit signed) with a float constant c.
+func (p *TermPool) fcmpIntConst(op string, x *Term, c float64, constLeft bool) *Term {
+	if math.IsNaN(c) {
+		return p.Bool(false)
+	}
+	const lim = 1 << 40
+	big := c > lim
+	small := c < -lim
+	fl, ce := math.Floor(c), math.Ceil(c)
+	k := func(v float64) *Term { return p.BV(64, uint64(int64(v))) }
+	switch op {
+	case "fp.lt":
+		if !constLeft { // x < c  <=>  x < ceil(c)
+			if big {
+				return p.Bool(true)
+			}
+			if small {
+				return p.Bool(false)
+			}
+			return p.Bin("bvslt", x, k(ce))
+		}
+		// c < x <=> x > floor(c)
+		if big {
+			return p.Bool(false)
+		}
+		if small {
+			return p.Bool(true)
+		}
+		return p.Bin("bvslt", k(fl), x)
+	case "fp.leq":
+		if !constLeft { // x <= c <=> x <= floor(c)
+			if big {
+				return p.Bool(true)
+			}
+			if small {
+				return p.Bool(false)
+			}
+			return p.Bin("bvsle", x, k(fl))
+		}
+		if big {
+			return p.Bool(false)
+		}
+		if small {
+			return p.Bool(true)
+		}
+		return p.Bin("bvsle", k(ce), x)
+	case "fp.eq":
+		if big || small || fl != c {
+			return p.Bool(false)
+		}
+		return p.Bin("=", x, k(c))
+	}
+	return nil
+}
+
 func (p *TermPool) FCmp(op string, a, b *Term) *Term {
+	// comparisons between exactly representable integers are decided in the bit-vector theory
+	xa, oka := p.intOfF(a)
+	xb, okb := p.intOfF(b)
+	switch {
+	case oka && okb:
+		switch op {
+		case "fp.lt":
+			return p.Bin("bvslt", xa, xb)
+		case "fp.leq":
+			return p.Bin("bvsle", xa, xb)
+		case "fp.eq":
+			return p.Bin("=", xa, xb)
+		}
+	case oka && b.isConst:
+		if r := p.fcmpIntConst(op, xa, math.Float64frombits(b.c), false); r != nil {
+			return r
+		}
+	case okb && a.isConst:
+		if r := p.fcmpIntConst(op, xb, math.Float64frombits(a.c), true); r != nil {
+			return r
+		}
+	}
 	if a.isConst && b.isConst {
 		x, y := math.Float64frombits(a.c), math.Float64frombits(b.c)
 		switch op {
